@@ -83,6 +83,13 @@ TABLES = [
     ("gen_C04_vtable.py", "casadi/CasADiProblem.tpp", r"\bCasADiFunctionsWithParam\s*\{(?=\s*\.n\b)"),
 ]
 
+# lookup tables: structs of which a translator reads only the declarations it looks up by name (the signatures of the functions the
+# translated code calls).  Only the looked-up entries are translated text: the tool first deletes every entry and keeps the ones
+# whose deletion is noticed; insertions and swaps are meaningless in a lookup table
+LOOKUP = [
+    ("gen_ocp.py", "problem/ocproblem.hpp", r"struct \w+@\d+", "problem_signatures(): argument kinds of the problem functions forward / backward call"),
+]
+
 # silent misses that are accepted, each with its reason: regex on "translator|file|unit|mutation description"
 WAIVERS = [
     (r"gen_prox\.py\|.*box-constr-problem\.hpp\|fn eval_prox_grad_step_box_l1(_scal)?@\d+\|dup .*duplicate `eval_prox_grad_step_box_l1_impl\(",
@@ -641,6 +648,20 @@ def mutants_code(S, M, a, b, partner, single_statement=False, site=False):
     return muts
 
 
+def entry_name(text, ms):
+    """the identifier match (one of ms) that names a table entry: the declared function / function pointer / variable / key"""
+    fp = re.search(r"\(\s*\*\s*(%s)\s*\)" % ID, text)
+    if fp:
+        return [m for m in ms if m.start() == fp.start(1)][0]
+    if "(" in text and not re.match(r"\s*[A-Z_]+\s*\(", text):           # a function declaration: the name before the parameter list
+        before = [m for m in ms if m.end() <= text.index("(")]
+        if before:
+            return before[-1]
+    if "=" in text:
+        return ([m for m in ms if m.end() <= text.index("=")] or ms)[-1]
+    return ms[-1]
+
+
 def mutants_table(S, M, entries, sep, kind):
     """mutants of a table whose entries are the spans `entries` (struct fields / enumerators / macro arguments)"""
     muts = []
@@ -675,7 +696,7 @@ def mutants_table(S, M, entries, sep, kind):
     for e in spread(entries, 2):                                               # rename the last identifier of an entry
         ms = [m for m in re.finditer(ID, M[e[0]:e[1]]) if not m.group(0)[0].isdigit() and m.group(0) not in KEYWORDS]
         if ms:
-            m = ms[-1] if "=" not in M[e[0]:e[1]] else ([x for x in ms if x.end() <= M[e[0]:e[1]].index("=")] or ms)[-1]
+            m = entry_name(M[e[0]:e[1]], ms)
             p = e[0] + m.end()
             muts.append(("op", "line %d: rename `%s` -> `%s_x` in `%s`" % (line_of(e[0]), m.group(0), m.group(0), snip(e)), S[:p] + "_x" + S[p:]))
     for cls, s, t, r in spread([o for o in op_candidates(M, entries[0][0], entries[-1][1]) if o[0] in ("const", "cmp", "arith", "eq")], 2):
@@ -684,7 +705,7 @@ def mutants_table(S, M, entries, sep, kind):
     txt = S[e[0]:e[1]]
     ms = [m for m in re.finditer(ID, M[e[0]:e[1]]) if not m.group(0)[0].isdigit() and m.group(0) not in KEYWORDS]
     if ms:
-        m = ms[-1] if "=" not in M[e[0]:e[1]] else ([x for x in ms if x.end() <= M[e[0]:e[1]].index("=")] or ms)[-1]
+        m = entry_name(M[e[0]:e[1]], ms)
         new = txt[:m.end()] + "_audit" + txt[m.end():]
         muts.append(("ins", "line %d: insert entry `%s`" % (line_of(e[1]), " ".join(new.split())[:50]),
                      S[:e[1]] + (", " if sep == "," else "\n    ") + new + S[e[1]:]))
@@ -878,7 +899,10 @@ def discover(t, rels, pool, base, verbose):
                 kids = [k for k in range(len(B)) if B[k]["parent"] == bi and reacts.get((rel, k)) and B[k]["kind"] in ("fn", "lambda", "struct", "enum")]
                 if kids:
                     continue            # a struct that reacts through its member functions / nested structs: those are the units
-                units.append(dict(file=rel, name=name, mode=b["kind"], a=b["open"] + 1, b=b["close"], single=False, kids=kids))
+                mode = b["kind"]
+                if any(t == lt and rel.endswith(lf) and re.fullmatch(lr, name) for lt, lf, lr, _ in LOOKUP):
+                    mode = "lookup"
+                units.append(dict(file=rel, name=name, mode=mode, a=b["open"] + 1, b=b["close"], single=False, kids=kids))
     # sites
     for st in SITES:
         if st[0] != t:
@@ -936,8 +960,19 @@ def discover(t, rels, pool, base, verbose):
     return units, info
 
 
+def struct_entries(M, u, partner):
+    sts = [s for s in statements(M, u["a"], u["b"], partner) if s["depth"] == 0 and s["kind"] == "simple"]
+    return [(s["start"], s["end"]) for s in sts if not re.match(r"\s*(using|template|friend|typedef|public|private|protected|static_assert)\b", M[s["start"]:s["end"]])]
+
+
 def unit_mutants(u, info):
     S, M, partner, B = info[u["file"]]
+    if u["mode"] == "lookup":
+        used = u.get("used")
+        if used is None:           # stage 1: delete every entry
+            return [("probe", "line %d: delete entry `%s`" % (S.count("\n", 0, a) + 1, " ".join(S[a:b].split())[:50]), S[:a] + S[b:])
+                    for a, b in struct_entries(M, u, partner)]
+        return [m for m in mutants_table(S, M, used, ";", "lookup") if m[0] in ("dup", "op", "del")]
     if u["mode"] == "code":
         return mutants_code(S, M, u["a"], u["b"], partner, single_statement=u["single"], site=u.get("site", False))
     if u["mode"] == "list":
@@ -947,9 +982,7 @@ def unit_mutants(u, info):
     if u["mode"] == "enum":
         return mutants_table(S, M, list_entries(M, u["a"], u["b"], partner), ",", "enum")
     if u["mode"] == "struct":
-        sts = [s for s in statements(M, u["a"], u["b"], partner) if s["depth"] == 0 and s["kind"] == "simple"]
-        fields = [(s["start"], s["end"]) for s in sts if not re.match(r"\s*(using|template|friend|typedef|public|private|protected|static_assert)\b", M[s["start"]:s["end"]])]
-        return mutants_table(S, M, fields, ";", "struct")
+        return mutants_table(S, M, struct_entries(M, u, partner), ";", "struct")
     return []
 
 
@@ -992,6 +1025,14 @@ def main():
         units, info = discover(t, rels, pool, base, a.v)
         if a.units:
             units = [u for u in units if re.search(a.units, u["file"] + "|" + u["name"])]
+        # lookup tables, stage 1: which entries does the translator look up?
+        for u in units:
+            if u["mode"] == "lookup":
+                probes = unit_mutants(u, info)
+                res_ = pool.map(_job, [(t, u["file"], p[2]) for p in probes], chunksize=1)
+                ents = struct_entries(info[u["file"]][1], u, info[u["file"]][2])
+                u["used"] = [e for e, r in zip(ents, res_) if verdict(base, r) != "MISS"]
+                u["name"] += " [lookup: %d of %d entries used]" % (len(u["used"]), len(ents))
         jobs_, meta = [], []
         for u in units:
             if u["mode"] == "missing":
